@@ -107,6 +107,18 @@ let dispatch cmd r =
   | "row_fast" -> let m = next_z r in let row = next_list r in let w = next_list r in let g = next_list r in
       out_list (row_fast m row w g)
   | "row_spec" -> let m = next_z r in let row = next_list r in let w = next_list r in out_list (row_spec m row w)
+  | "rank_filter" -> let m = next_z r in let f = next_arr r in let bc = next_arr r in let rank = next_z r in
+      let g = next_list r in out_list (rank_filter m f bc rank g)
+  | "median_rank" -> let bc = next_arr r in out_list [median_rank bc]
+  | "mean_filter" -> let m = next_z r in let f = next_arr r in let bc = next_arr r in
+      let l = mean_filter m f bc in out_lists [List.map fst l; List.map snd l]
+  | "samples_spec" -> let m = next_z r in let f = next_arr r in let bc = next_arr r in
+      out_lists (List.map (fun p -> samples_spec m f bc p) (all_positions f.shape))
+  | "template_match" -> let d = next_dt r in let m = next_z r in let f = next_arr r in let t = next_arr r in
+      out_list (template_match d m f t)
+  | "ssd_spec" -> let m = next_z r in let f = next_arr r in let t = next_arr r in
+      out_list (List.map (fun p -> ssd_spec m f t p) (all_positions f.shape))
+  | "find2d" -> let f = next_arr r in let t = next_arr r in out_list (find2d f t)
   | _ -> failwith ("unknown command " ^ cmd)
 
 let () =
